@@ -50,7 +50,7 @@ func vAssertPlacements(label string, c *Coordinator, S, K int, infos []*shardInf
 // mode 1: no head-series limit (process-series relief only - which needs K >= 2 to move anything)
 // and every shard in sync. mode 2: a head-series limit that no shard has reached (so that only
 // process-series relief runs, but has to respect the head limit of the receiving shard), every
-// shard in sync.
+// shard in sync. mode 3: as mode 2 with the shape fixed - all K targets on shard 0, none elsewhere.
 func VRelief(S, K, mode int) {
 	c := &Coordinator{option: vOption(), log: vLogger()}
 	zzv.Assume(!c.option.DisableAlleviate)
@@ -58,7 +58,16 @@ func VRelief(S, K, mode int) {
 		zzv.Assume(c.option.MaxHeadSeries == 0)
 	}
 	infos, pre := vShardInfos(S, K, mode != 0)
-	if mode == 2 {
+	if mode == 3 {
+		for i := range infos {
+			want := 0
+			if i == 0 {
+				want = K
+			}
+			zzv.Assume(len(pre[i]) == want)
+		}
+	}
+	if mode == 2 || mode == 3 {
 		zzv.Assume(c.option.MaxHeadSeries > 0)
 		for _, si := range infos {
 			zzv.Assume(si.runtime.HeadSeries < c.option.MaxHeadSeries)
